@@ -8,7 +8,8 @@ CNeg2 == -2
 
 \* data generators: small integers, deterministic, distinct per column
 Gen(t, j) == ((t * t + 2 * j * t + 3 * j) % 6) - 2
-Rows(T, w, miss) == [t \in 1..T |-> [j \in 1..w |-> IF <<t, j>> \in miss THEN NaN ELSE Gen(t, j)]]
+Gen2(t, j, g) == IF g = 0 THEN Gen(t, j) ELSE ((t * t * t + j * t + 2 * j + 1) % 5) - 1     \* a second data set (g = 1)
+Rows(T, w, miss, g) == [t \in 1..T |-> [j \in 1..w |-> IF <<t, j>> \in miss THEN NaN ELSE Gen2(t, j, g)]]
 \* noise-free data: y_t = 2 y_{t-1} - x_t + 1 (K = 1, nx = 1, p = 1), and y1_t = y2_{t-1} + 1, y2_t = y1_{t-1} - y2_{t-1} (K = 2)
 RECURSIVE Y1(_)
 Y1(t) == IF t = 1 THEN 1 ELSE 2 * Y1(t - 1) - Gen(t, 2) + 1
@@ -17,12 +18,12 @@ YA(t) == IF t = 1 THEN 3 ELSE YB(t - 1) + 1
 YB(t) == IF t = 1 THEN 1 ELSE YA(t - 1) - YB(t - 1)
 
 MissSets(T, w) == {{}, {<<3, 1>>}, {<<T, w>>}, {<<2, w>>}, {<<1, 1>>}, {<<4, 1>>, <<5, w>>}}
-Scen == UNION {{[K |-> kpt[1][1], nx |-> kpt[2], p |-> kpt[1][2], icpt |-> TRUE, exact |-> FALSE, data |-> Rows(kpt[3], kpt[1][1] + kpt[2], ms)] :
-                   ms \in MissSets(kpt[3], kpt[1][1] + kpt[2])}
+Scen == UNION {{[K |-> kpt[1][1], nx |-> kpt[2], p |-> kpt[1][2], icpt |-> TRUE, exact |-> FALSE, g |-> g, data |-> Rows(kpt[3], kpt[1][1] + kpt[2], ms, g)] :
+                   ms \in MissSets(kpt[3], kpt[1][1] + kpt[2]), g \in {0, 1}}
                : kpt \in {<<1, 1>>, <<1, 2>>, <<2, 1>>} \X {0, 1} \X {7, 8}}
-        \cup {[K |-> 1, nx |-> 1, p |-> 1, icpt |-> TRUE, exact |-> TRUE, data |-> [t \in 1..6 |-> <<Y1(t), Gen(t, 2)>>]],
-              [K |-> 2, nx |-> 0, p |-> 1, icpt |-> TRUE, exact |-> TRUE, data |-> [t \in 1..6 |-> <<YA(t), YB(t)>>]],
-              [K |-> 1, nx |-> 0, p |-> 1, icpt |-> FALSE, exact |-> FALSE, data |-> Rows(6, 1, {})]}
+        \cup {[K |-> 1, nx |-> 1, p |-> 1, icpt |-> TRUE, exact |-> TRUE, g |-> 0, data |-> [t \in 1..6 |-> <<Y1(t), Gen(t, 2)>>]],
+              [K |-> 2, nx |-> 0, p |-> 1, icpt |-> TRUE, exact |-> TRUE, g |-> 0, data |-> [t \in 1..6 |-> <<YA(t), YB(t)>>]],
+              [K |-> 1, nx |-> 0, p |-> 1, icpt |-> FALSE, exact |-> FALSE, g |-> 0, data |-> Rows(6, 1, {}, 0)]}
 
 Init == sc \in Scen /\ out = <<>> /\ done = FALSE
 Compute == /\ ~done /\ done' = TRUE /\ UNCHANGED sc
